@@ -12,6 +12,7 @@ import DtailModel.Lemmas.GoStr
 import DtailModel.Lemmas.NoPanic
 import DtailModel.Lemmas.GenQuery
 import DtailModel.Lemmas.GenOptions
+set_option autoImplicit false
 namespace Dtail.GenDecode
 open Dtail Dtail.Go Dtail.GenQuery
 
